@@ -214,6 +214,10 @@ func genMixinDoc(r *R, tag string, usedIDs map[string]bool, idlessPct int) obj {
 		} else {
 			doc["paths"] = paths
 		}
+		if r.P(20) {
+			// the paths object may carry vendor extensions of its own (also when it holds no path item)
+			doc["paths"].(obj)[r.Pick([]string{"x-visibility", "x-Paths-Ext"})] = "ext-" + tag
+		}
 	}
 	return doc
 }
